@@ -1,18 +1,8 @@
-"""Per-property configuration of the check driver."""
-PROPS = {
-    "C18": {
-        "bin": "c18",
-        "run_imports": ["Model.Latch", "Run.C18Run"],
-        "shard": 300,
-        "rule": "corpus (known witnesses) + exhaustive suffixes of length 3 (quick) / 4 (thorough) over a 15-letter alphabet "
-                "{source A/B/C x RTP ok-SSRC seq+1 / seq+9 / marker, RTP other SSRC, RTCP, reset, signalling retarget, selected-pair} after a "
-                "two-source prefix, for each probation setting, + seeded random operation sequences; non-trivial = the RTP destination moved "
-                "or a latch was committed; distinct = distinct (initial remote, operation list)",
-        "assumptions": [
-            "IceConn socket is not an inbound TCP stream (the TCP adoption branch is not modelled)",
-            "datagram source ports are non-zero (port 0 is the 'unset' sentinel)",
-            "each IceConn method body is one atomic step (they run under the RwLock/Mutex/atomics of IceConn; interleavings inside one receive() are not modelled)",
-        ],
-        "trusted_base": ["hook H3 (cfg rustrtc_verif wrappers around the two crate-private setters)"],
-    },
-}
+"""Per-property configuration of the check driver: one JSON file per property in tools/props.d/."""
+import glob
+import json
+import os
+
+PROPS = {}
+for _p in sorted(glob.glob(os.path.join(os.path.dirname(os.path.abspath(__file__)), "props.d", "*.json"))):
+    PROPS[os.path.basename(_p)[:-5]] = json.load(open(_p))
